@@ -702,3 +702,148 @@ Section Diagnostics.
     - rewrite in_app_iff, Hpre. split; [|intros H; left; exact H]. intros [H|Hin]; [exact H | destruct (Htd Hin)].
   Qed.
 End Diagnostics.
+
+(* ---- two terminals with the same value ---- *)
+Definition val_is (v : string) (d : string * string * bool) : bool := String.eqb (snd (fst d)) v.
+
+Lemma two_in_length {A : Type} (l : list A) x y : In x l -> In y l -> x <> y -> 2 <= length l.
+Proof.
+  destruct l as [|a [|b t]]; simpl; intros Hx Hy Hne.
+  - destruct Hx.
+  - destruct Hx as [Hx|[]], Hy as [Hy|[]]. subst. destruct (Hne eq_refl).
+  - lia.
+Qed.
+
+Lemma NoDup_map_filter {A B : Type} (f : A -> B) (P : A -> bool) (l : list A) :
+  NoDup (map f l) -> NoDup (map f (filter P l)).
+Proof.
+  induction l as [|x l IH]; simpl; intros H; [constructor|]. inversion H as [|? ? Hx Hl]; subst.
+  destruct (P x); simpl; [|apply IH; exact Hl]. constructor; [|apply IH; exact Hl].
+  intros Hin. apply Hx. apply in_map_iff in Hin as [y [Hy Hin]]. apply filter_In in Hin as [Hin _].
+  apply in_map_iff. exists y. split; assumption.
+Qed.
+
+Definition same_value_part (sd : list (string * string * bool)) : list diag :=
+  flat_map (fun d => let '(a, v, _) := d in
+                     let same := filter (fun d' => String.eqb (snd (fst d')) v) sd in
+                     match same with
+                     | _ :: _ :: _ =>
+                       match same with
+                       | (a0, _, _) :: _ => if String.eqb a0 a then [SameValue v (map (fun d' => fst (fst d')) same)] else []
+                       | [] => []
+                       end
+                     | _ => []
+                     end) sd.
+
+Lemma same_value_part_sound sd v ts :
+  In (SameValue v ts) (same_value_part sd) ->
+  exists x y t, filter (val_is v) sd = x :: y :: t.
+Proof.
+  unfold same_value_part. intros H. apply in_flat_map in H as [[[a v'] r] [_ H]].
+  destruct (filter (fun d' => String.eqb (snd (fst d')) v') sd) as [|[[a1 v1] r1] [|y t]] eqn:E; simpl in H; try destruct H.
+  destruct (String.eqb a1 a); [|destruct H]. destruct H as [H|[]]. inversion H; subst.
+  exists (a1, v1, r1), y, t. exact E.
+Qed.
+
+Lemma same_value_part_complete sd v :
+  2 <= length (filter (val_is v) sd) -> exists ts, In (SameValue v ts) (same_value_part sd).
+Proof.
+  intros H. destruct (filter (val_is v) sd) as [|[[a0 v0] r0] [|y t]] eqn:E; simpl in H; try lia.
+  assert (H0 : In (a0, v0, r0) (filter (val_is v) sd)) by (rewrite E; left; reflexivity).
+  apply filter_In in H0 as [Hin Hv]. unfold val_is in Hv. simpl in Hv. apply String.eqb_eq in Hv. subst v0.
+  eexists. unfold same_value_part. apply in_flat_map. exists (a0, v, r0). split; [exact Hin|].
+  change (fun d' : string * string * bool => String.eqb (snd (fst d')) v) with (val_is v). rewrite E.
+  rewrite String.eqb_refl. left. reflexivity.
+Qed.
+
+Lemma table_diags_same_value s v ts :
+  In (SameValue v ts) (table_diags s) <-> In (SameValue v ts) (same_value_part (single_defs s)).
+Proof.
+  unfold table_diags. fold (same_value_part (single_defs s)). rewrite !in_app_iff. split.
+  - intros [H|[H|H]]; [|exact H|].
+    + apply in_flat_map in H as [e [_ H]]. destruct (te_defs e) as [|x [|y t]]; simpl in H;
+        [destruct H as [H|[]]; discriminate | destruct H | destruct H as [H|[]]; discriminate].
+    + destruct (existsb _ _); [destruct H|]. destruct H as [H|[]]. discriminate.
+  - intros H. right. left. exact H.
+Qed.
+
+Lemma final_diags_same_value s v ts :
+  In (SameValue v ts) (final_diags s) <-> In (SameValue v ts) (table_diags s).
+Proof.
+  unfold final_diags. destruct (table_diags s) as [|x t] eqn:E.
+  - split; [|intros []]. intros H. exfalso. apply in_app_or in H as [H|H].
+    + apply in_map_iff in H as [w [H _]]. discriminate.
+    + apply in_app_or in H as [H|H].
+      * apply in_flat_map in H as [A [_ H]]. destruct (existsb _ _); [destruct H|]. destruct H as [H|[]]. discriminate.
+      * destruct (levels_overlap _); [|destruct H]. destruct H as [H|[]]. discriminate.
+  - rewrite in_app_iff. split; [|intros H; right; exact H]. intros [H|H]; [|exact H].
+    apply in_map_iff in H as [w [H _]]. discriminate.
+Qed.
+
+Lemma in_single_defs s a v r :
+  In (a, v, r) (single_defs s) <-> exists e, In e (s_terms s) /\ te_name e = a /\ te_defs e = [(v, r)].
+Proof.
+  unfold single_defs. rewrite in_flat_map. split.
+  - intros [e [He H]]. exists e. split; [exact He|]. destruct (te_defs e) as [|[v0 r0] [|y t]]; simpl in H.
+    + destruct H.
+    + destruct H as [H|[]]. inversion H; subst. split; reflexivity.
+    + destruct H.
+  - intros [e [He [Hn Hd]]]. exists e. split; [exact He|]. rewrite Hd, Hn. left. reflexivity.
+Qed.
+
+Lemma single_defs_names s :
+  map (fun d : string * string * bool => fst (fst d)) (single_defs s)
+  = map te_name (filter (fun e => match te_defs e with [_] => true | _ => false end) (s_terms s)).
+Proof.
+  unfold single_defs. induction (s_terms s) as [|e l IH]; simpl; [reflexivity|].
+  destruct (te_defs e) as [|[v r] [|y t]]; simpl; rewrite ?IH; reflexivity.
+Qed.
+
+Section SameValue.
+  Variable terminal_names : list (string * string).
+  Variable predefs : list (string * string).
+  Let tbl ds := translate terminal_names predefs ds.
+
+  (* "two terminals with the same value": reported for v iff two different names of the table each have v as their one
+     definition, read off the declaration list *)
+  Theorem same_value_reported_iff ds v :
+    names_distinct predefs ds = true ->
+    ((exists ts, In (SameValue v ts) (final_diags (tbl ds))) <->
+     exists a b r1 r2, a <> b /\ in_table predefs ds a /\ in_table predefs ds b /\
+                       defs_of predefs ds a = [(v, r1)] /\ defs_of predefs ds b = [(v, r2)]).
+  Proof.
+    intros Hn. split.
+    - intros [ts H]. apply final_diags_same_value, table_diags_same_value, same_value_part_sound in H as [x [y [t E]]].
+      assert (Hnd : NoDup (map (fun d : string * string * bool => fst (fst d)) (filter (val_is v) (single_defs (tbl ds))))).
+      { apply NoDup_map_filter. rewrite single_defs_names. apply NoDup_map_filter. apply table_names_are_unique. }
+      rewrite E in Hnd. simpl in Hnd. inversion Hnd as [|? ? Hxy _]; subst.
+      assert (Hx : In x (filter (val_is v) (single_defs (tbl ds)))) by (rewrite E; left; reflexivity).
+      assert (Hy : In y (filter (val_is v) (single_defs (tbl ds)))) by (rewrite E; right; left; reflexivity).
+      apply filter_In in Hx as [Hx Vx]. apply filter_In in Hy as [Hy Vy].
+      destruct x as [[a va] r1], y as [[b vb] r2]. unfold val_is in Vx, Vy. simpl in *.
+      apply String.eqb_eq in Vx. apply String.eqb_eq in Vy. subst va vb.
+      apply in_single_defs in Hx as [e1 [He1 [Hn1 Hd1]]]. apply in_single_defs in Hy as [e2 [He2 [Hn2 Hd2]]].
+      exists a, b, r1, r2. repeat split.
+      + intros Hab. apply Hxy. left. symmetry. exact Hab.
+      + apply (table_names terminal_names predefs ds a). rewrite <- Hn1. apply in_map. exact He1.
+      + apply (table_names terminal_names predefs ds b). rewrite <- Hn2. apply in_map. exact He2.
+      + rewrite <- Hn1, <- (entry_carries_the_declarations terminal_names predefs ds e1 Hn He1). exact Hd1.
+      + rewrite <- Hn2, <- (entry_carries_the_declarations terminal_names predefs ds e2 Hn He2). exact Hd2.
+    - intros (a & b & r1 & r2 & Hab & Ha & Hb & Da & Db).
+      apply (table_names terminal_names predefs ds a) in Ha. apply in_map_iff in Ha as [e1 [Hn1 He1]].
+      apply (table_names terminal_names predefs ds b) in Hb. apply in_map_iff in Hb as [e2 [Hn2 He2]].
+      assert (S1 : In (a, v, r1) (single_defs (tbl ds))).
+      { apply in_single_defs. exists e1. repeat split; [exact He1 | exact Hn1|].
+        rewrite (entry_carries_the_declarations terminal_names predefs ds e1 Hn He1), Hn1. exact Da. }
+      assert (S2 : In (b, v, r2) (single_defs (tbl ds))).
+      { apply in_single_defs. exists e2. repeat split; [exact He2 | exact Hn2|].
+        rewrite (entry_carries_the_declarations terminal_names predefs ds e2 Hn He2), Hn2. exact Db. }
+      assert (L : 2 <= length (filter (val_is v) (single_defs (tbl ds)))).
+      { apply (two_in_length _ (a, v, r1) (b, v, r2)).
+        - apply filter_In. split; [exact S1 | apply String.eqb_refl].
+        - apply filter_In. split; [exact S2 | apply String.eqb_refl].
+        - intros H. inversion H. apply Hab. assumption. }
+      destruct (same_value_part_complete _ v L) as [ts H]. exists ts.
+      apply final_diags_same_value, table_diags_same_value. exact H.
+  Qed.
+End SameValue.
